@@ -209,7 +209,7 @@ func c02Run(c *Ctx) {
 func init() {
 	register(&PropDef{
 		ID: "C02", Level: "exploration",
-		Rule:        "every line skeleton of G at <=1 non-default production (thorough <=2) x placeholder-mode flag sets; for each skeleton the explorer enumerates the re-assignments of its SECRET leaves within their class: fillers jointly re-assigned or not x each focused literal taking every alternative of its class alphabet (9 ordinary strings incl. empty, 1.3 KB, JSON metacharacters, '@' without e-mail shape; 4 e-mails; 4 $date / $oid / base64 contents; 6 numbers under N; both booleans under B), up to 2 leaves deviating; oracle = byte-identical output. distinct = skeleton lines with at least one SECRET leaf",
+		Rule:        "every line skeleton of G at <=1 non-default production (thorough <=2) x placeholder-mode flag sets; for each skeleton the explorer enumerates the re-assignments of its SECRET leaves within their class: fillers jointly re-assigned or not x each focused literal taking every alternative of its class alphabet (9 ordinary strings incl. empty, 1.3 KB, JSON metacharacters, '@' without e-mail shape; 4 e-mails; 4 $date / $oid / base64 contents; 6 numbers under N; both booleans under B), up to 2 leaves deviating; oracle = byte-identical output. distinct = skeleton lines with at least one SECRET leaf" + scaleRule + streamLenRule,
 		Assumptions: []string{"class membership follows DESIGN.md 3.0: borderline e-mail shapes are never used as members of a class", "encrypt and selective modes are outside the property"},
 		Run:         c02Run,
 	})
